@@ -381,15 +381,11 @@ func oracle(s *mw.Sys) (string, string) {
 // put, put with parent header, tombstone of unstored / stored / parent / child target, repeated and
 // redundant-then-default marks, revive after tombstone and after mark, delete of a parent through
 // its last child, container removal).
-func driftAlphabet(thorough bool) []mw.Op {
-	names := []string{"Put(R2)", "Put(C1)", "Put(C2)", "Put(E0)", "Put(T3)", "Put(T2)",
-		"MarkGarbage(R2)", "MarkRedundant(R2)", "MarkGarbage(P)",
-		"Delete(R2)", "Delete(C2)", "Revive(R2)", "Revive(C2)",
-		"InhumeContainer(cA)", "DeleteContainer(cA)"}
-	if thorough { // EC child variants
-		names = append(names, "Put(T5)", "MarkGarbage(E0)", "Delete(E0)", "Revive(E0)")
-	}
-	return append(mw.OpsByName(names...), mw.MacroOps()...)
+func driftAlphabet() []mw.Op {
+	return append(mw.OpsByName("Put(R2)", "Put(C1)", "Put(C2)", "Put(E0)", "Put(T3)", "Put(T2)", "Put(T5)",
+		"MarkGarbage(R2)", "MarkRedundant(R2)", "MarkGarbage(P)", "MarkGarbage(E0)",
+		"Delete(R2)", "Delete(C2)", "Delete(E0)", "Revive(R2)", "Revive(C2)", "Revive(E0)",
+		"InhumeContainer(cA)", "DeleteContainer(cA)"), mw.MacroOps()...)
 }
 
 func main() {
@@ -401,7 +397,7 @@ func main() {
 	defer os.RemoveAll(scratch)
 
 	full := append(mw.FullAlphabet(), mw.MacroOps()...)
-	dr := driftAlphabet(r.Thorough())
+	dr := driftAlphabet()
 	// one alphabet for replays: the union (drift letters are a subset of the full alphabet)
 	fullDepth, driftDepth := 2, 3
 	if r.Thorough() {
